@@ -129,9 +129,9 @@ def sleepName : List Char := "sleep".toList
 
 /-- `result.Requests[len-1].Sleep += ms` -/
 def bumpLast {ρ} (acc : List (Step ρ)) (ms : Int) : Option (List (Step ρ)) :=
-  match acc.reverse with
-  | [] => none
-  | l :: r => some (({ l with sleep := l.sleep + ms } :: r).reverse)
+  match acc.getLast? with
+  | none => none
+  | some l => some (acc.dropLast ++ [{ l with sleep := l.sleep + ms }])
 
 /-- the loop body of `convertScenarioToAmmo` for one parsed item -/
 def expandItem {ρ} (reqs : List Char → Option ρ) (acc : List (Step ρ)) (it : Item) : Outcome (List (Step ρ)) :=
@@ -402,10 +402,19 @@ inductive Ev (Req : Type) where
   | pause (ms : Int)
 deriving Repr, DecidableEq
 
+/-- what one executed step contributed to the variable tree: its name, its preprocessor variables and — once it
+has succeeded — its postprocessor variables -/
+structure StepRec where
+  name : String
+  pre : List (String × Val)
+  post : Option (List (String × Val))
+
 structure GState (Req : Type) where
   iter : Iter
   hist : List Req       -- requests this instance has sent so far (what the target has seen)
   log : List (Ev Req)
+  seen : List (List (String × Val)) := []   -- ghost: the variable tree handed to the templater, per templated step
+  recs : List StepRec := []                 -- ghost: one record per step whose preprocessor succeeded
 
 def emptyTag : String := "__EMPTY__"
 
@@ -442,8 +451,9 @@ def shootStep {Req Resp} (w : World Req Resp) (source : Val) (scName : String) (
   | .panic _ => none
   | .err _ => fail rv0 g
   | .ok (pv, it') =>
-    let g := { g with iter := it' }
     let rv1 := setKey d.name (.map [("preprocessor", .map pv)]) rv0
+    let g := { g with iter := it', seen := g.seen ++ [tree source rv1],
+                      recs := g.recs ++ [{ name := d.name, pre := pv, post := none }] }
     match w.render d (tree source rv1) with
     | none => fail rv1 g
     | some req =>
@@ -456,7 +466,7 @@ def shootStep {Req Resp} (w : World Req Resp) (source : Val) (scName : String) (
         | some postv =>
           let rv2 := setKey d.name (.map [("preprocessor", .map pv), ("postprocessor", .map postv)]) rv1
           let log := g.log ++ [.sample tag (w.code resp) false] ++ (if st.sleep > 0 then [.pause st.sleep] else [])
-          some (true, rv2, { g with log })
+          some (true, rv2, { g with log, recs := g.recs.dropLast ++ [{ name := d.name, pre := pv, post := some postv }] })
 
 /-- the `for _, req := range ammo.Requests` loop: the first failing step ends the shot -/
 def shootLoop {Req Resp} (w : World Req Resp) (source : Val) (scName : String) :
